@@ -5,8 +5,11 @@ mod rng;
 mod sy;
 
 mod ast;
+mod c01;
+mod c07;
 mod c08_09_14;
 mod c13;
+mod c16;
 mod c17;
 mod gen;
 mod lua;
@@ -20,7 +23,7 @@ mod visit;
 use fw::{Check, Tier};
 
 fn registry() -> Vec<&'static dyn Check> {
-    vec![&plant::C03, &plant::C04, &plant::C05, &c08_09_14::C08, &c08_09_14::C09, &c13::C13, &c08_09_14::C14, &c17::C17]
+    vec![&c01::C01, &c01::C10, &plant::C03, &plant::C04, &plant::C05, &c07::C07, &c08_09_14::C08, &c08_09_14::C09, &c13::C13, &c08_09_14::C14, &c16::C16, &c17::C17]
 }
 
 fn find(id: &str) -> Option<&'static dyn Check> {
@@ -62,6 +65,28 @@ fn main() {
             let seed: u64 = args.get(2).and_then(|s| s.parse().ok()).unwrap_or(1);
             let show: usize = args.get(3).and_then(|s| s.parse().ok()).unwrap_or(5);
             fw::on_big_stack(move || gen_probe(n, seed, show));
+        }
+        "luarun" => {
+            let text = std::fs::read_to_string(&args[1]).expect("read");
+            match lua::load(&text) {
+                lua::Loaded::Ok(c) => {
+                    let r = lua::run(&c, true);
+                    for p in r.prints.iter().take(40) {
+                        println!("{}", p);
+                    }
+                    println!("outcome: {:?}\nevents: {:?}\ncounters: {:?}", r.outcome, r.events.iter().take(5).collect::<Vec<_>>(), r.counters);
+                }
+                other => println!("{:?}", other),
+            }
+        }
+        "fuel" => {
+            let text = std::fs::read_to_string(&args[1]).expect("read");
+            let t0 = std::time::Instant::now();
+            let r = sy::compile_files(&sy::one_file(&text), "main.sy", &sy::CompileOpts { fuel: Some(50_000_000), ..Default::default() });
+            println!("{} ticks={} ms={}", r.brief(), sy::last_fuel_used(), t0.elapsed().as_millis());
+        }
+        "c16child" => {
+            std::process::exit(c16::child_main(args.get(1).map(|s| s.as_str()).unwrap_or("")));
         }
         "replay" => {
             if args.len() != 5 {
